@@ -460,3 +460,599 @@ def replay(ctx, data):
         ctx.violation("crash on replay", data)
         return
     handle_result(ctx, data["input"], cfg, res, explained_by_switch_rule(cfg))
+
+
+# =================================================================================================================
+# Round 2: multi-call HISTORIES with different inputs. The Lean history model (Model/Route `Inst.call`, `HSinks`,
+# `simPrologue`, `fmtOf`, bindings of Model/SelOut) is driven with (a) the recorded events and (b) an INDEPENDENT
+# reading of the input texts (which blocks are defined, when they are re-read, PRINT -selected_output, -high_precision,
+# USER_PUNCH shape); the engine's own state is compared with that reading as a separate relation.
+import re as _re
+
+KEYWORDS = {"SOLUTION", "SELECTED_OUTPUT", "USER_PUNCH", "PRINT", "END", "USE", "REACTION", "EQUILIBRIUM_PHASES", "MIX",
+            "DUMP", "KNOBS", "TITLE", "SAVE", "INVERSE_MODELING", "KINETICS", "RATES", "EXCHANGE", "SURFACE", "GAS_PHASE",
+            "REACTION_TEMPERATURE", "INCLUDE$", "PHASES", "SOLUTION_SPECIES", "SOLUTION_MASTER_SPECIES", "CALCULATE_VALUES",
+            "DELETE", "COPY", "RUN_CELLS", "USER_PRINT", "SOLID_SOLUTIONS", "TRANSPORT", "ADVECTION"}
+NEW_MODEL_KEYS = {"PHASES", "SOLUTION_SPECIES", "SOLUTION_MASTER_SPECIES", "CALCULATE_VALUES", "RATES"}
+NO_TOUCH_OPTS = ("user_punch", "active", "selected_out", "selected_output")
+
+
+def parse_input(text):
+    """independent reading of an input text: list of simulations, each a list of blocks (keyword, number, body lines)"""
+    sims, cur, blk = [], [], None
+    for raw in text.splitlines():
+        line = raw.split("#", 1)[0].strip()
+        if not line:
+            continue
+        w = line.split()
+        kw = w[0].upper()
+        if kw in KEYWORDS:
+            if kw == "END":
+                sims.append(cur)
+                cur, blk = [], None
+                continue
+            n = 1
+            if len(w) > 1 and _re.fullmatch(r"-?\d+", w[1]):
+                n = int(w[1])
+            blk = (kw, n, [])
+            cur.append(blk)
+        elif blk is not None:
+            blk[2].append(line)
+    if cur:
+        sims.append(cur)
+    return sims
+
+
+class TextState:
+    """what the input texts of a history say about selected output (persists across calls; LoadDatabase resets)"""
+
+    def __init__(self):
+        self.defs = []           # defined user numbers, ascending
+        self.hp = {}             # n -> -high_precision
+        self.user_punch_on = {}  # n -> -user_punch
+        self.up = {}             # n -> dict(nvals, headings, special)
+        self.pr_punch = True
+
+    def read_call(self, text):
+        """returns per-simulation facts of this call and per-number facts needed to judge formats"""
+        sims = parse_input(text)
+        out = []
+        hp_seen, up_seen = {}, {}
+        late_redef = set()
+        for k, sim in enumerate(sims):
+            blocks, tidy_kw = [], False
+            for kw, n, body in sim:
+                if kw == "SELECTED_OUTPUT":
+                    tidy_kw = True
+                    opts = {}
+                    for ln in body:
+                        w = ln.split()
+                        o = w[0].lstrip("-").lower()
+                        opts[o] = w[1].lower() if len(w) > 1 else "true"
+                    touch = any(o not in NO_TOUCH_OPTS for o in opts)
+                    existed = n in self.defs
+                    stored = touch or not existed
+                    if stored:
+                        if existed and k >= 1:
+                            late_redef.add(n)
+                        if n == 1 and existed:
+                            hp = self.hp.get(1, False)
+                            upo = self.user_punch_on.get(1, True)
+                        else:
+                            hp, upo = False, True
+                        if "high_precision" in opts:
+                            hp = opts["high_precision"].startswith("t")
+                        if "user_punch" in opts:
+                            upo = opts["user_punch"].startswith("t")
+                        self.hp[n], self.user_punch_on[n] = hp, upo
+                        if not existed:
+                            self.defs = sorted(self.defs + [n])
+                        hp_seen.setdefault(n, set()).add(hp)
+                    elif "user_punch" in opts:
+                        self.user_punch_on[n] = opts["user_punch"].startswith("t")
+                    blocks.append((n, touch))
+                elif kw == "USER_PUNCH":
+                    tidy_kw = True
+                    heads, nvals, special = [], 0, False
+                    for ln in body:
+                        w = ln.split()
+                        if w[0].lower().startswith("-head"):
+                            heads = w[1:]
+                        elif _re.match(r"\d+\s+PUNCH\b", ln, _re.I):
+                            args = ln.split(None, 2)[2] if len(ln.split(None, 2)) > 2 else ""
+                            nvals += len([a for a in args.split(",") if a.strip() and a.strip().upper() not in ("NO_NEWLINE$", "EOL_NOTAB$")])
+                            if "NO_NEWLINE$" in args.upper() or "EOL_NOTAB$" in args.upper():
+                                special = True
+                    self.up[n] = dict(nvals=nvals, headings=heads, special=special)
+                    up_seen.setdefault(n, 0)
+                    up_seen[n] += 1
+                elif kw == "PRINT":
+                    for ln in body:
+                        w = ln.split()
+                        o = w[0].lstrip("-").lower()
+                        if o.startswith("selected_out") or o == "selected_output":
+                            self.pr_punch = (w[1].lower().startswith("t") if len(w) > 1 else True)
+                elif kw in NEW_MODEL_KEYS:
+                    tidy_kw = True
+            first = (k == 0)
+            tidy = tidy_kw or (first and bool(self.defs))
+            out.append(dict(first=first, pr_punch=self.pr_punch, tidy=tidy, blocks=blocks))
+        ambiguous = {n for n, v in hp_seen.items() if len(v) > 1} | {n for n, c in up_seen.items() if c > 1}
+        return dict(sims=out, late_redef=late_redef, ambiguous=ambiguous, inverse=any(b[0] == "INVERSE_MODELING" for s in sims for b in s))
+
+
+def loop_is_hoisted():
+    """shape of the file-open loop of IPhreeqc::do_run read from the source: is tidy_punch() called inside the loop body
+    (code as written) or once behind it (repaired)? Fails closed."""
+    src = (vlib.REPO / "src" / "IPhreeqc.cpp").read_text()
+    m = src.find("if (this->SelectedOutputFileOnMap[(*it).first] && !(*it).second.Get_punch_ostream())")
+    if m < 0:
+        raise RuntimeError("do_run: file-open loop not recognised")
+    i = src.index("{", m)
+    depth, j = 0, i
+    while True:
+        if src[j] == "{":
+            depth += 1
+        elif src[j] == "}":
+            depth -= 1
+            if depth == 0:
+                break
+        j += 1
+    inside = "tidy_punch()" in _re.sub(r"//[^\n]*", "", src[i:j])
+    tail = _re.sub(r"//[^\n]*", "", src[j:j + 400])
+    after = "tidy_punch()" in tail
+    if inside == after:
+        raise RuntimeError("do_run: cannot tell where tidy_punch() is called relative to the file-open loop")
+    return after
+
+
+def loop_guarded_by_print():
+    """is the file-open loop of do_run skipped while PRINT -selected_output false is in effect (code as written)?"""
+    src = (vlib.REPO / "src" / "IPhreeqc.cpp").read_text()
+    a = src.find("if (this->PhreeqcPtr->SelectedOutput_map.size() > 0)")
+    b = src.find("if (this->SelectedOutputFileOnMap[(*it).first] && !(*it).second.Get_punch_ostream())")
+    if a < 0 or b < a:
+        raise RuntimeError("do_run: file-open loop not recognised")
+    return "pr.punch == FALSE" in _re.sub(r"//[^\n]*", "", src[a:b])
+
+
+def skeleton_of_events(events):
+    """recorded punch_open calls and heading lines of a call: o<n> / h<n>"""
+    sk = []
+    for e in events:
+        p = e.split(" ")
+        if p[1] == "popen":
+            sk.append("o" + p[3])
+        elif p[1] == "pmsg" and (int(p[2]) & 16) and p[4] == "0a":
+            sk.append("h" + p[3])
+    return sk
+
+
+def hist_cfg_lines(cfg, selusers):
+    return [f"cfg out {int(cfg['out'][0])} {int(cfg['out'][1])}", f"cfg log {int(cfg['log'][0])} {int(cfg['log'][1])}",
+            f"cfg err {int(cfg['err'][0])} {int(cfg['err'][1])}",
+            "cfg strsw " + " ".join(f"{k}={int(v)}" for k, v in cfg["strsw"].items()),
+            "cfg filesw " + " ".join(f"{k}={int(v)}" for k, v in cfg["filesw"].items()),
+            f"cfg cur {cfg['cur']}", "cfg peruser 0", "cfg selusers " + " ".join(str(n) for n in selusers)]
+
+
+def parse_model_block(lines):
+    pv = {}
+    for ln in lines:
+        parts = ln.split(" ")
+        tag = parts[1]
+        if tag in ("selstr", "sellines", "selfile", "tab"):
+            pv.setdefault(tag, {})[int(parts[2])] = parts[3:]
+        else:
+            pv[tag] = parts[2:]
+    return pv
+
+
+def next_cfg(rng, prev, nums):
+    """switch state of the next call: the maps persist, some entries flip, the current number moves"""
+    if prev is None:
+        cfg = make_cfg(rng, nums, allow_mixed=rng.random() < 0.3)
+        for n in nums:                       # most blocks get explicit switches so that files and strings are exercised
+            if rng.random() < 0.8:
+                cfg["strsw"][n] = cfg["strsw"].get(cfg["cur"], rng.random() < 0.7) if rng.random() < 0.8 else rng.random() < 0.5
+            if rng.random() < 0.8:
+                cfg["filesw"][n] = rng.random() < 0.7
+        return cfg
+    cfg = {k: (dict(v) if isinstance(v, dict) else v) for k, v in prev.items()}
+    cfg["users"] = list(nums)
+    for k in ("out", "log", "err", "dump"):
+        if rng.random() < 0.3:
+            cfg[k] = (rng.random() < 0.5, rng.random() < 0.5)
+    if rng.random() < 0.35:
+        v = rng.random() < 0.6                # uniform change of the string switch (keeps the known switch rule out of the way)
+        for n in list(cfg["strsw"]):
+            cfg["strsw"][n] = v
+    elif rng.random() < 0.15 and cfg["strsw"]:
+        n = rng.choice(list(cfg["strsw"]))
+        cfg["strsw"][n] = not cfg["strsw"][n]
+    for n in list(cfg["filesw"]):
+        if rng.random() < 0.25:
+            cfg["filesw"][n] = not cfg["filesw"][n]
+    for n in nums:
+        if n not in cfg["filesw"] and rng.random() < 0.5:
+            cfg["filesw"][n] = rng.random() < 0.7
+        if n not in cfg["strsw"] and rng.random() < 0.5:
+            cfg["strsw"][n] = cfg["strsw"].get(cfg["cur"], False)
+    if rng.random() < 0.4:
+        cfg["cur"] = rng.choice(list(nums) + [1])
+    return cfg
+
+
+def render_num(var):
+    import struct
+    if var[0] == "L":
+        return ("%d" % int(var[1:])).encode()
+    d = struct.unpack(">d", bytes.fromhex(var[1:]))[0]
+    return ("%23.15e" % d).encode()
+
+
+def compare_cells(hlines, mlines, cap):
+    """bindings: harness `cells` output vs the Lean model of the four accessors. Returns first difference or None."""
+    K = [l for l in hlines if l.startswith("K ")]
+    C = [l for l in hlines if l.startswith("C ")]
+    R = [l for l in hlines if l.startswith("R cells")]
+    mk = [l for l in mlines if l.startswith("P K ")]
+    mc = [l for l in mlines if l.startswith("P C ")]
+    if len(K) != 1 or len(mk) != 1 or len(C) != len(mc) or not R:
+        return "cells: malformed output (%d/%d cell lines)" % (len(C), len(mc))
+    if R[0] != "R cells unchanged":
+        return "reading cells changed the table"
+    k, m = K[0].split(), mk[0].split()
+    rows, cols = [int(x) for x in k[3:6]], [int(x) for x in k[7:10]]
+    api, rf, nc = int(m[3]), int(m[4]), int(m[5])
+    if rows != [api, api, rf]:
+        return f"row counts C/C++/F {rows} vs model {[api, api, rf]}"
+    if cols != [nc, nc, nc]:
+        return f"column counts C/C++/F {cols} vs model {nc}"
+    for hl, ml in zip(C, mc):
+        parts = hl.split(" | ")
+        c = parts[0].split()
+        cpp, v2, f = parts[1].split()[1:], parts[2].split()[1:], parts[3].split()[1:]
+        mm = ml.split()
+        r, col, code, var, vt, dh, s2, sf, agree = mm[2], mm[3], mm[4], mm[5], mm[6], mm[7], mm[8], mm[9], mm[10]
+        where = f"cell ({r},{col}): "
+        if c[1:3] != [r, col]:
+            return where + "order"
+        if c[3:5] != [code, var]:
+            return where + f"C accessor {c[3:5]} vs model {[code, var]}"
+        if cpp != [code, var]:
+            return where + f"C++ accessor {cpp} vs model {[code, var]}"
+        if agree != "1":
+            return where + "model: Fortran accessor disagrees"
+        if v2[0] != code or f[0] != code:
+            return where + f"result codes C {code} Value2 {v2[0]} ValueF {f[0]}"
+        if v2[1] != vt or f[1] != vt:
+            return where + f"reported type Value2 {v2[1]} ValueF {f[1]} vs model {vt}"
+        expd = dh if dh != "-" else "0000000000000000"
+        if v2[2] != expd or f[2] != expd:
+            return where + f"dvalue Value2 {v2[2]} ValueF {f[2]} vs model {expd}"
+        if v2[4] != "0" or f[4] != "0":
+            return where + "accessor wrote behind the caller's buffer"
+        got2 = unhx(v2[3])
+        fbuf, flen = f[3].split(":")
+        gotf = unhx(fbuf)
+        if s2 == "untouched":
+            if got2 != b"#" * cap or gotf != b"#" * cap or int(flen) != cap:
+                return where + "svalue written for an empty / error cell"
+        else:
+            if s2 == "num":
+                txt = render_num(var)
+                exp2, expf, explen = txt[:cap], txt[:cap] + b" " * max(0, cap - len(txt)), len(txt)
+            else:
+                exp2 = unhx(s2)
+                eb, el = sf.split(":")
+                expf, explen = unhx(eb), int(el)
+            if got2 != exp2:
+                return where + f"Value2 svalue {got2[:40]!r} vs {exp2[:40]!r}"
+            if gotf != expf or int(flen) != explen:
+                return where + f"ValueF svalue {gotf[:40]!r}:{flen} vs {expf[:40]!r}:{explen}"
+    return None
+
+
+def fmt_queries(events, ts_before, info, ts_after):
+    """(query lines, meta) for the format-choice relation: every value event of the call with the block's precision flag
+    and the column class read from the input text. ts_* are (hp, user_punch_on, up) snapshots."""
+    hp_after, upo_after, up_after = ts_after
+    q, meta = [], []
+    rows = {}
+    for e in events:
+        p = e.split(" ")
+        if p[1] in ("pd", "ps", "pi"):
+            rows.setdefault(int(p[3]), []).append(p)
+        elif p[1] == "endrow":
+            n = int(p[3])
+            row = rows.pop(n, [])
+            if n in info["ambiguous"] or n in info["late_redef"] or n not in hp_after:
+                continue
+            upd = up_after.get(n)
+            nuser = upd["nvals"] if (upd and upo_after.get(n, True) and not upd["special"]) else (0 if not upd or not upo_after.get(n, True) else None)
+            if nuser is None or nuser > len(row):
+                continue
+            for k, p in enumerate(row):
+                user = k >= len(row) - nuser
+                strlen = len(unhx(p[6])) if p[1] == "ps" else 0
+                q.append(f"fq {int(hp_after[n])} {int(user)} {p[1]} {p[4]} {strlen} 1 {p[5]}")
+                meta.append((n, unhx(p[4]).decode("utf-8", "replace"), unhx(p[5]).decode(), user))
+    return q, meta
+
+
+def run_history(ctx, exe, inputs, cfgs, cells_cap=None, names=None, db=DB):
+    """one instance, one database load, the calls of a history (different inputs, switch changes in between).
+    Returns dict(calls=[per-call analysis], ...) or {"crash":...}"""
+    script = ["new", f"load {hx(db)}"]
+    for k, v in (names or {}).items():
+        if k[0] == "sel":
+            script += [f"cur {k[1]}", f"fname sel {hx(v)}"]
+        else:
+            script.append(f"fname {k[0]} {hx(v)}")
+    ts = TextState()
+    infos, snaps = [], []
+    for cfg, inp in zip(cfgs, inputs):
+        script += cfg_script(cfg) + [f"run {hx(inp)}", "views"]
+        before = (dict(ts.hp), dict(ts.user_punch_on), {k: dict(v) for k, v in ts.up.items()})
+        infos.append(ts.read_call(inp))
+        snaps.append((before, (dict(ts.hp), dict(ts.user_punch_on), {k: dict(v) for k, v in ts.up.items()}), list(ts.defs)))
+    ncell_ops = 0
+    if cells_cap is not None:
+        last_defs = snaps[-1][2]
+        for n in last_defs + [77, 0]:
+            script += [f"cells {n} -1 9 -2 14 {cells_cap}"]
+            ncell_ops += 1
+    rc, out, err = run_script(ctx, exe, script)
+    if rc != 0:
+        return {"crash": rc, "stderr": err[-800:], "script": script}
+    recs = parse_output(out)
+    runrec = [r for r in recs if r["op"] == "run"]
+    vrec = [r for r in recs if r["op"] == "views"]
+    if len(runrec) != len(inputs) or len(vrec) != len(inputs):
+        return {"crash": "no-result", "stdout": out[-5:], "script": script}
+    # ---- Lean history model: one invocation for the whole history
+    ml = []
+    for cfg, rr, vr in zip(cfgs, runrec, vrec):
+        selusers = sorted(vr["views"].get("tab", {}).keys())
+        ml += hist_cfg_lines(cfg, selusers) + rr["events"] + ["endcall"]
+    cell_specs = []
+    if cells_cap is not None:
+        for n in snaps[-1][2] + [77, 0]:
+            d = int(n in snaps[-1][2])
+            ml.append(f"cells {n} {d} -1 9 -2 14 {cells_cap}")
+            cell_specs.append(n)
+    mout = ctx.pmodel("route", "\n".join(ml) + "\n")
+    blocks, curb = [], []
+    cell_out = []
+    for ln in mout:
+        if ln.startswith("P K ") or ln.startswith("P C ") or ln.startswith("P cells"):
+            cell_out.append(ln)
+            continue
+        curb.append(ln)
+        if ln.startswith("P bad "):
+            blocks.append(curb)
+            curb = []
+    if len(blocks) != len(inputs):
+        raise RuntimeError("pmodel route: %d call reports for %d calls" % (len(blocks), len(inputs)))
+    # ---- schedule model
+    hoisted = loop_is_hoisted()
+    guarded = loop_guarded_by_print()
+    sl = ["sk reset"]
+    for cfg, info in zip(cfgs, infos):
+        sl.append(f"sk cfg {int(hoisted)} " + " ".join(f"{k}={int(v)}" for k, v in cfg["filesw"].items()))
+        for s in info["sims"]:
+            sl.append(f"sk sim {int(s['first'])} {int(s['pr_punch'] or not guarded)} {int(s['tidy'])} " + " ".join(f"{n}:{int(t)}" for n, t in s["blocks"]))
+        sl.append("sk endcall")
+    skout = [l.split()[2:] for l in ctx.pmodel("route", "\n".join(sl) + "\n") if l.startswith("P sk")]
+    res = []
+    prev_views = None
+    for k, (cfg, inp, rr, vr, blk, info) in enumerate(zip(cfgs, inputs, runrec, vrec, blocks, infos)):
+        pv = parse_model_block(blk)
+        if pv.get("bad", ["0"])[0] != "0":
+            raise RuntimeError("pmodel route could not parse %s event lines" % pv["bad"][0])
+        views, events, ret = vr["views"], rr["events"], int(rr["args"][0])
+        diffs = compare_call(cfg, views, pv)
+        # files are compared whatever the switch says: the model carries the content earlier calls left on disk
+        for name in ("out", "log", "err"):
+            f = views[name + "file"][2]
+            f = "-" if f == "!" else f
+            if f != pv[name + "file"][0]:
+                diffs.append((name + "file-history", f[:200], pv[name + "file"][0][:200]))
+        for n, fv in views.get("selfile", {}).items():
+            f = "-" if fv[2] == "!" else fv[2]
+            m = pv.get("selfile", {}).get(n, ["-"])[0]
+            if f != m:
+                diffs.append((f"selfile-history {n}", f[:200], m[:200]))
+        bad = direct_oracle(cfg, views)
+        # a disabled file sink receives nothing: content on disk unchanged by this call
+        if prev_views is not None:
+            for name in ("out", "log", "err"):
+                if not cfg[name][1] and views[name + "file"][2] != prev_views[name + "file"][2]:
+                    bad.append((name + "-disabled-file-written", f"{name}: file switch off, yet the file changed during the call"))
+            for n, fv in views.get("selfile", {}).items():
+                pf = prev_views.get("selfile", {}).get(n)
+                if pf is not None and not cfg["filesw"].get(n, False) and pf[1] == fv[1] and pf[2] != fv[2]:
+                    bad.append(("sel-disabled-file-written", f"sel {n}: file switch off, yet the file changed during the call"))
+        nerr = sum(1 for e in events if e.startswith("EV err "))
+        if (ret != 0) != (nerr > 0):
+            bad.append(("retval-vs-errors", f"return value {ret} with {nerr} ERROR events"))
+        r = {"diffs": diffs, "oracle": bad, "ret": ret, "events": len(events), "views": views, "info": info,
+             "rows": sum(int(dict(x.split("=") for x in v)["rows"]) for v in views.get("sel", {}).values()),
+             "redefined": sorted(info["late_redef"]), "call": k, "rel": [],
+             "print_off_whole_call": guarded and bool(info["sims"]) and not any(s["pr_punch"] for s in info["sims"])}
+        # relation: defined numbers read from the texts = numbers the object reports (error-free calls)
+        judged = (ret == 0 and not info["inverse"])
+        if judged and all(x["ret"] == 0 for x in res):
+            impl_defs = sorted(views.get("sel", {}).keys())
+            if impl_defs != snaps[k][2]:
+                r["rel"].append(("defs", f"defined user numbers {impl_defs}, input texts say {snaps[k][2]}"))
+            for n, meta in views.get("sel", {}).items():
+                hp = dict(x.split("=") for x in meta).get("hp")
+                if hp is not None and n in snaps[k][1][0] and n not in info["ambiguous"] and int(hp) != int(snaps[k][1][0][n]):
+                    r["rel"].append(("hp", f"sel {n}: engine high_precision {hp}, input texts say {int(snaps[k][1][0][n])}"))
+            isk = skeleton_of_events(events)
+            r["sk_impl"], r["sk_model"] = isk, skout[k]
+            if isk != skout[k]:
+                r["rel"].append(("schedule", f"punch_open / heading-line schedule {' '.join(isk)} vs model {' '.join(skout[k])}"))
+            # numbers with more than one heading line in this call according to the schedule model (code as written)
+            r["dup_heading"] = sorted({int(x[1:]) for x in skout[k] if x[0] == "h" and skout[k].count(x) > 1})
+            # format choice
+            q, meta = fmt_queries(events, snaps[k][0], info, snaps[k][1])
+            r["fmt_judged"] = len(q)
+            if q:
+                fo = ctx.pmodel("route", "\n".join(q) + "\n")
+                for ans, mt in zip(fo, meta):
+                    if ans.startswith("P fq bad"):
+                        exp = unhx(ans.split()[3]).decode()
+                        r["rel"].append(("format", f"sel {mt[0]} column {mt[1]!r} ({'USER_PUNCH' if mt[3] else 'built-in'}): "
+                                                   f"printed with {mt[2]!r}, format selection model gives {exp!r}"))
+                        break
+        else:
+            r["dup_heading"] = []
+        res.append(r)
+        prev_views = views
+    out_cells = None
+    if cells_cap is not None:
+        # split harness / model cell output per user number
+        hl = [l for l in out if l.startswith("K ") or l.startswith("C ") or l.startswith("R cells")]
+        hgroups, g = [], []
+        for l in hl:
+            g.append(l)
+            if l.startswith("R cells"):
+                hgroups.append(g)
+                g = []
+        mgroups, g = [], []
+        for l in cell_out:
+            if l.startswith("P K ") and g:
+                mgroups.append(g)
+                g = []
+            g.append(l)
+        if g:
+            mgroups.append(g)
+        out_cells = []
+        for n, hg, mg in zip(cell_specs, hgroups, mgroups):
+            d = compare_cells(hg, mg, cells_cap)
+            out_cells.append((n, d, len(hg) - 2))
+        if len(hgroups) != len(cell_specs) or len(mgroups) != len(cell_specs):
+            out_cells.append((None, "cells: group count mismatch", 0))
+    return {"calls": res, "cells": out_cells, "script": script, "hoisted": hoisted}
+
+
+def handle_history_result(ctx, inputs, cfgs, k, r, hoisted):
+    """violation protocol for call k of a history"""
+    rep = {"history": inputs[:k + 1], "cfgs": [cfg_json(c) for c in cfgs[:k + 1]], "call": k, "kind": "history"}
+    cfg, inp = cfgs[k], inputs[k]
+    mixed = explained_by_switch_rule(cfg)
+    if r["diffs"]:
+        if r["oracle"] and not (mixed and all(key.startswith("sel-") for key, _ in r["oracle"])):
+            ctx.violation("history: views disagree with the history model and the property's own relations fail: "
+                          + "; ".join(t for _, t in r["oracle"][:3]), dict(rep, diffs=r["diffs"][:5], oracle=r["oracle"][:5]))
+        else:
+            ctx.violation("history: views disagree with the history model (Model/Route Inst.call): " + str(r["diffs"][0][0]),
+                          dict(rep, diffs=r["diffs"][:5], correspondence="ph_trace views vs pmodel route endcall"))
+        return
+    for key, text in r["rel"]:
+        if key == "format":
+            ctx.violation("print format differs from the format-selection model (Model/Route fmtOf): " + text, dict(rep, relation=text))
+        else:
+            ctx.violation(f"history relation `{key}` broken: " + text,
+                          dict(rep, relation=text, correspondence="independent reading of the input texts vs engine / Model/Route simPrologue"))
+        return
+    no_nl = users_without_newline("\n".join(inputs[:k + 1]))
+    for key, text in r["oracle"]:
+        m = _re.match(r"sel (\d+):", text)
+        n_user = int(m.group(1)) if m else None
+        if key in ("sel-string-rows", "sel-file-rows") and n_user in no_nl:
+            continue
+        if key in ("sel-string-rows", "sel-file-rows", "sel-file-ne-string") and n_user in r["redefined"]:
+            # narrow rule: a SELECTED_OUTPUT n block that the INPUT TEXT of this call re-reads in a later simulation
+            ctx.finding("selected-output-redefined-within-call", text, dict(rep, oracle=r["oracle"][:5]))
+        elif key in ("sel-string-rows", "sel-file-ne-string") and not hoisted and n_user in r.get("dup_heading", []):
+            # narrow rule: the schedule model of the loop as written predicts two heading lines for this number in this call
+            ctx.finding("heading-duplicated-on-reopen", text, dict(rep, oracle=r["oracle"][:5], schedule=r.get("sk_impl")))
+        elif (key in ("sel-file-ne-string", "sel-file-rows") and r.get("print_off_whole_call") and "sk_impl" in r
+              and ("o%d" % n_user) not in r["sk_impl"]):
+            # narrow rule: PRINT -selected_output false in effect during every simulation of the call (read from the input
+            # texts), no punch_open for this number recorded in the call: the file keeps what an earlier call left there
+            ctx.finding("punch-file-not-opened-under-print-off", text, dict(rep, oracle=r["oracle"][:5], schedule=r.get("sk_impl")))
+        elif key.startswith("sel-") and mixed:
+            ctx.finding("get_sel_out_string_on-ignores-n", text, dict(rep, oracle=r["oracle"][:5]))
+        else:
+            ctx.violation("history: model and code agree but the property's relation fails: " + text, dict(rep, oracle=r["oracle"][:5]))
+            return
+
+
+def run_histories(ctx, exe, n, with_cells=True):
+    """generate and judge n histories; returns counters"""
+    hist = {"histories": 0, "calls": 0, "kinds": {}, "calls_with_rows": 0, "calls_with_errors": 0, "calls_reopen_without_block": 0,
+            "late_redefinitions": 0, "format_cells_judged": 0, "schedule_judged": 0, "binding_cells": 0, "dup_heading_calls": 0,
+            "files_kept_while_off": 0}
+    distinct = set()
+    for i in range(n):
+        inputs, kinds = gi.history(ctx.rng)
+        if i % 7 == 3:
+            # forced: definitions of several blocks in call 1, no block in call 2 (the re-open path of do_run)
+            inputs[1:2] = [gi.solution(ctx.rng, 50) + "END\n"]
+            kinds[1:2] = ["plain"]
+        nums = sorted({b[1] for t in inputs for s in parse_input(t) for b in s if b[0] == "SELECTED_OUTPUT"})
+        cfgs, prev = [], None
+        for _ in inputs:
+            prev = next_cfg(ctx.rng, prev, nums)
+            cfgs.append(prev)
+        names = {}
+        if ctx.rng.random() < 0.3:
+            names[("out",)] = "my output.txt"
+            for u in nums[:2]:
+                names[("sel", u)] = f"sel_{u}.custom"
+        cap = ctx.rng.choice([1, 5, 12, 13, 24, 48, 100, 160]) if with_cells and ctx.rng.random() < 0.6 else None
+        res = run_history(ctx, exe, inputs, cfgs, cells_cap=cap, names=names)
+        hist["histories"] += 1
+        if "crash" in res:
+            ctx.violation("harness run crashed / gave no result", {"history": inputs, "cfgs": [cfg_json(c) for c in cfgs], "result": res, "kind": "history"})
+            break
+        for k, r in enumerate(res["calls"]):
+            hist["calls"] += 1
+            hist["kinds"][kinds[k]] = hist["kinds"].get(kinds[k], 0) + 1
+            hist["calls_with_rows"] += 1 if r["rows"] else 0
+            hist["calls_with_errors"] += 1 if r["ret"] else 0
+            hist["late_redefinitions"] += 1 if r["redefined"] else 0
+            hist["format_cells_judged"] += r.get("fmt_judged", 0)
+            hist["schedule_judged"] += 1 if "sk_model" in r else 0
+            hist["dup_heading_calls"] += 1 if r.get("dup_heading") else 0
+            if "sk_impl" in r and any(x[0] == "o" for x in r["sk_impl"]) and not any(b for s in r["info"]["sims"] for b in s["blocks"]):
+                hist["calls_reopen_without_block"] += 1
+            distinct.add(hash((inputs[k], str(cfgs[k]), k)))
+            handle_history_result(ctx, inputs, cfgs, k, r, res["hoisted"])
+            if ctx.violations:
+                break
+        if ctx.violations:
+            break
+        for n_user, d, cnt in (res["cells"] or []):
+            hist["binding_cells"] += cnt
+            if d:
+                ctx.violation("bindings: C / C++ / Value2 / Fortran accessors vs Model/SelOut: " + d,
+                              {"history": inputs, "cfgs": [cfg_json(c) for c in cfgs], "user": n_user, "cap": cap, "kind": "history"})
+                break
+        if ctx.violations:
+            break
+        if i < 1:
+            ctx.sample({"history_kinds": kinds, "call_2_input": inputs[1][:300] if len(inputs) > 1 else "", "schedule_call_2": res["calls"][1].get("sk_impl") if len(res["calls"]) > 1 else None})
+    ctx.cov["history_histogram"] = hist
+    return {"evaluations": hist["calls"], "distinct": len(distinct)}
+
+
+def replay_history(ctx, data):
+    exe = ctx.build_harness("ph_trace")
+    inputs = data["history"]
+    cfgs = [cfg_from_json(c) for c in data["cfgs"]]
+    res = run_history(ctx, exe, inputs, cfgs, cells_cap=data.get("cap"))
+    if "crash" in res:
+        ctx.violation("crash on replay", data)
+        return
+    for k, r in enumerate(res["calls"]):
+        print("replay call", k, {x: r[x] for x in ("diffs", "oracle", "rel", "ret", "rows")})
+        handle_history_result(ctx, inputs, cfgs, k, r, res["hoisted"])
+    for n_user, d, cnt in (res["cells"] or []):
+        if d:
+            ctx.violation("bindings: " + d, data)
